@@ -19,6 +19,9 @@ type Harness struct {
 	// plus channel and lock states): sound when the threads of the harness interact only
 	// through hooked operations, as the goroutine pipelines of a single call do.
 	StateKeys bool
+	// ProbesOnly limits the exploration to the default schedule and the three probe schedules
+	// (for harnesses that are too long to branch on, e.g. a version-40 QR symbol).
+	ProbesOnly bool
 }
 
 // Violation is a failing schedule.
@@ -166,6 +169,10 @@ func Explore(h Harness, bound int, shard, nshards int, deadline time.Time) Stats
 		}
 	} else if strings.HasPrefix(v, "HARD-ERROR") {
 		st.HardError = v
+		return st
+	}
+	if h.ProbesOnly {
+		st.Cut = true
 		return st
 	}
 	stack := []*frame{mk(x, 0)}
